@@ -74,33 +74,79 @@ class Tape(progs.RealExec):
         return bad
 
 
-def oracle(prog, idx):
+def oracle_at(prog):
+    """the property's predicate at EVERY backward() of the history: -> (class, message, index of the failing
+    statement) for the first backward that neither raises InvalidBackprop nor works on forward-time values"""
     ex = Tape()
+    for k, st in enumerate(prog):
+        if st[0] != "back":
+            ex.step(st)
+            continue
+        L = ex.v.get(st[1])
+        if L is None or L.constant:
+            ex.step(st)
+            continue
+        try:
+            stale = ex.stale_ops(L)
+        except RecursionError:
+            stale = []
+        r = ex.step(st)
+        if r == "InvalidBackprop":
+            continue
+        if r == "RecursionError":
+            return ("cyclic-graph", "backward() on a tensor whose graph was partially cleared and then re-used through in-place "
+                    "updates dies with RecursionError (the recorded graph has become cyclic) instead of raising InvalidBackprop", k)
+        if r != "ok":
+            if st[2] is not None and not progs._bcastable(tuple(st[2][1]), L.shape):
+                continue
+            return ("raises-other", f"backward raised {r} (neither InvalidBackprop nor a result)", k)
+        if stale:
+            op, j = stale[0]
+            return ("stale-values-used", f"backward() succeeded although input {j} of a recorded {op} no longer holds the value "
+                    f"used in the forward pass (no InvalidBackprop was raised)", k)
+    return None
+
+
+def oracle(prog, idx):
+    r = oracle_at(prog)
+    return [] if r is None else [(r[0], r[1])]
+
+
+def after_clear_classes(prog):
+    """what a (shrunk) history does after its first backward/clear_graph with the tensors that existed before it:
+    M = mutates one of them in place, U = uses one of them as an input of a later statement (op, view, or operand of
+    an in-place update of another tensor)"""
+    seen_boundary = False
+    old, cl = set(), set()
     for st in prog[:-1]:
-        ex.step(st)
-    st = prog[-1]
-    L = ex.v.get(st[1])
-    if L is None or L.constant:
-        return []
-    try:
-        stale = ex.stale_ops(L)
-    except RecursionError:
-        stale = []
-    r = ex.step(st)
-    if r == "InvalidBackprop":
-        return []
-    if r == "RecursionError":
-        return [("cyclic-graph!", "backward() on a tensor whose graph was partially cleared and then re-used through in-place "
-                 "updates dies with RecursionError (the recorded graph has become cyclic) instead of raising InvalidBackprop")]
-    if r != "ok":
-        if st[2] is not None and not progs._bcastable(tuple(st[2][1]), L.shape):
-            return []
-        return [("raises-other", f"backward raised {r} (neither InvalidBackprop nor a result)")]
-    if stale:
-        op, j = stale[0]
-        return [("stale-values-used!", f"backward() succeeded although input {j} of a recorded {op} no longer holds the value "
-                 f"used in the forward pass (no InvalidBackprop was raised)")]
-    return []
+        if st[0] in ("back", "clear"):
+            seen_boundary = True
+            continue
+        if not seen_boundary:
+            if st[0] in ("leaf", "bin", "un", "sum", "view", "take"):
+                old.add(st[1])
+            continue
+        operands = [x[1] for x in st[2:] if isinstance(x, list) and len(x) == 2 and x[0] == "t"]
+        if st[0] == "view" and any(o in old for o in operands):
+            old.add(st[1])  # a view of a tensor of the cleared graph: writing through it mutates that tensor
+        if st[0] in ("set", "aug", "outb", "outu"):
+            if st[1] in old:
+                cl.add("M")
+            if any(o in old and o != st[1] for o in operands):
+                cl.add("U")
+        elif st[0] in ("bin", "un", "sum", "view", "take"):
+            if any(o in old for o in operands):
+                cl.add("U")
+    return ",".join(sorted(cl)) or "-"
+
+
+def sigfn(prop, cls, small):
+    r = oracle_at(small)
+    if r is not None:
+        small = small[: r[2] + 1]  # the history up to (and including) the failing backward
+    # what had to happen after the clearing for the failure to manifest identifies the family: on the unchanged tree
+    # it takes an in-place mutation (M) AND a re-use (U) of tensors of the cleared graph, which refills a consumer set
+    return f"{prop}|{cls}|after-clear:{after_clear_classes(small)}"
 
 
 def nontrivial(prog):
@@ -129,24 +175,73 @@ WITNESS = [["leaf", 0, [2], [1, 2], 0], ["bin", 1, "mul", ["t", 0], ["py", 2], N
            ["bin", 4, "mul", ["t", 1], ["py", 5], None], ["back", 3, None]]
 
 
+def template_programs():
+    """systematic histories: a tensor y shared by two graphs L1, L2; optional live view of y; L1 is back-propagated or
+    cleared; y (or the view) is mutated in place; y is optionally re-used; then L2.backward()"""
+    out = []
+    for ykind in ("leaf", "intermediate"):
+        for view in (None, "slice", "reshape"):
+            for view_in_l1 in ((False, True) if view else (False,)):
+                for boundary in ("back", "clear"):
+                    for mut in (None, "set-all", "set-part", "aug", "out", "set-view"):
+                        if mut == "set-view" and not view:
+                            continue
+                        for reuse in (None, "op", "view"):
+                            p = [["leaf", 0, [4], [1, 2, 3, 4], 0]]
+                            y = 0
+                            if ykind == "intermediate":
+                                p.append(["bin", 1, "mul", ["t", 0], ["py", 2], None])
+                                y = 1
+                            if view == "slice":
+                                p.append(["view", 5, ["gi", [["s", None, 2, None]]], ["t", y], None])
+                            elif view == "reshape":
+                                p.append(["view", 5, ["rs", [2, 2]], ["t", y], None])
+                            src = 5 if (view and view_in_l1) else y
+                            p.append(["bin", 2, "add", ["t", src], ["py", 1], None])   # L1
+                            p.append(["bin", 3, "mul", ["t", y], ["t", y], None])       # L2
+                            p.append([boundary, 2] if boundary == "clear" else ["back", 2, None])
+                            if mut == "set-all":
+                                p.append(["set", y, ["b", ["e"]], ["py", 5]])
+                            elif mut == "set-part":
+                                p.append(["set", y, ["b", [["i", 0]]], ["py", 5]])
+                            elif mut == "aug":
+                                p.append(["aug", y, "mul", ["py", 3]])
+                            elif mut == "out":
+                                p.append(["outu", y, "neg", ["l", [4], [1, 1, 1, 1]], None])
+                            elif mut == "set-view":
+                                p.append(["set", 5, ["b", ["e"]], ["py", 7]])
+                            if reuse == "op":
+                                p.append(["bin", 4, "mul", ["t", y], ["py", 5], None])
+                            elif reuse == "view":
+                                p.append(["view", 6, ["gi", [["s", 1, None, None]]], ["t", y], None])
+                            p.append(["back", 3, None])
+                            out.append(p)
+    return out
+
+
 def run(ctx: Ctx) -> Outcome:
-    n = ctx.n(600, 8000)
+    n = ctx.n(2000, 10000)
     out, results = engcheck.run_programs(ctx, n, dict(GEN, n_stmts=ctx.n(11, 20)), "oracle", nontrivial)
     out.rule = ("random histories with several graphs sharing upstream tensors: ops, views, in-place updates, backward(), "
                 "clear_graph(), null_grad, del interleaved in any order, then a final backward; non-trivial = >=2 "
                 "backward/clear statements; oracle: if the final backward does not raise InvalidBackprop, no op in its live "
                 "graph may see an input whose value differs from the one recorded at forward time")
-    engcheck.report(out, results, "C09", oracle)
+    engcheck.report(out, results, "C09", oracle, sigfn=sigfn)
+    # systematic templates (all combinations)
+    tres = [{"prog": p, "fails": oracle(p, 0)} for p in template_programs()]
+    out.evaluations += len(tres)
+    out.stats["template_histories"] = len(tres)
+    engcheck.report(out, tres, "C09", oracle, sigfn=sigfn, per_class=10 ** 6)
     msg = f6_witness()
     if msg:
-        out.violations.append(Violation("C09|stale-values-used", msg, {"kind": "program", "program": WITNESS, "class": "stale-values-used!"}))
+        out.violations.append(Violation(sigfn("C09", "stale-values-used", WITNESS), msg, {"kind": "program", "program": WITNESS, "class": "stale-values-used"}))
     return out
 
 
 def check_witness(w):
     f = oracle(w["program"], 0)
     for cls, msg in f:
-        return Violation(f"C09|{cls.rstrip('!')}", msg, {"kind": "program", "program": w["program"], "class": cls})
+        return Violation(sigfn("C09", cls, w["program"]), msg, {"kind": "program", "program": w["program"], "class": cls})
     return None
 
 
